@@ -272,6 +272,25 @@ class Translator:
         if isinstance(st, (ast.FunctionDef,)):
             env[st.name] = Closure(st, env, self, mod)
             return None
+        if isinstance(st, ast.Delete):
+            for t in st.targets:
+                if isinstance(t, ast.Name) and t.id in env:
+                    del env[t.id]
+                elif isinstance(t, ast.Subscript) and not isinstance(t.slice, ast.Slice):
+                    obj = self.eval(t.value, env, mod, depth)
+                    idx = self.eval(t.slice, env, mod, depth)
+                    if isinstance(obj, dict):
+                        k = _pykey(idx)
+                        if k not in obj:
+                            raise Unmodelled("del of a missing key (KeyError): %s" % ast.unparse(t))
+                        del obj[k]
+                    elif isinstance(obj, list):
+                        del obj[_pyint(idx)]
+                    else:
+                        raise Unmodelled("del on a symbolic value: %s" % ast.unparse(t))
+                else:
+                    raise Unmodelled("del target %s" % ast.unparse(t))
+            return None
         if isinstance(st, ast.Raise):
             if self.hooks.get("allow_raise"):
                 raise Raised(ast.unparse(st))
@@ -426,6 +445,8 @@ class Translator:
             if isinstance(obj, dict):
                 k = _pykey(idx)
                 if k not in obj:
+                    if self.hooks.get("allow_raise"):
+                        raise Raised("KeyError: %r in `%s`" % (k, ast.unparse(n)))
                     raise Unmodelled("key %r not in literal dict" % (k,))
                 return obj[k]
             hook = self.hooks.get("subscript")
@@ -543,6 +564,8 @@ class Translator:
                 if head in mod.imports or head in NUMERIC_MODULES:
                     return Opaque(d)
         obj = self.eval(n.value, env, mod, depth)
+        if hasattr(obj, "tok_attrs") and n.attr in obj.tok_attrs:
+            return obj.tok_attrs[n.attr]  # checker-defined token (a str / tuple subclass that carries attributes)
         if n.attr == "dtype" and not (isinstance(obj, SelfObj) and "dtype" in obj.attrs):
             return DType(obj)
         if n.attr in ("shape", "dtype") and isinstance(obj, SelfObj) and n.attr in obj.attrs:
@@ -678,6 +701,19 @@ class Translator:
             h = self.hooks.get(callee.key)
             if h:
                 return h(self, args, kwargs, n)
+            ok = self.hooks.get("construct")
+            if ok and callee.key in ok:
+                # the class's own __init__ interpreted on a fresh symbolic object
+                obj = SelfObj(callee, {})
+                init = callee.lookup("__init__")
+                if init is not None:
+                    saved = self.hooks.get("allow_attr_store")
+                    self.hooks["allow_attr_store"] = True
+                    try:
+                        self.call_fn(init, args, kwargs, self_obj=obj, depth=depth + 1)
+                    finally:
+                        self.hooks["allow_attr_store"] = saved
+                return obj
             raise Unmodelled("constructor call %s" % callee.key)
         raise Unmodelled("call of %r" % (callee,))
 
@@ -686,6 +722,10 @@ class Translator:
             return sp.Integer(obj.index(args[0]))
         if isinstance(obj, str) and name == "format":
             return obj.format(*[str(a) for a in args], **{k: str(v) for k, v in kwargs.items()})
+        if isinstance(obj, str) and name == "join" and len(args) == 1 and isinstance(args[0], (list, tuple)) and all(isinstance(x, str) for x in args[0]):
+            return obj.join(str(x) for x in args[0])
+        if isinstance(obj, str) and name in ("split", "startswith", "endswith", "strip", "lstrip", "rstrip", "lower", "upper", "replace") and all(isinstance(x, (str, int)) for x in args):
+            return getattr(str(obj), name)(*args)
         if isinstance(obj, PySet):
             if name in ("add", "discard"):
                 getattr(obj, name)(args[0])
@@ -739,7 +779,7 @@ class Translator:
                 obj.reverse()
                 return None
             if name == "sort" and not args and not kwargs:
-                if all((is_sym(x) and x.is_number) or isinstance(x, (int, float, str)) for x in obj):
+                if all((is_sym(x) and x.is_number) or isinstance(x, (int, float, str)) or _pyplain(x) for x in obj):
                     obj.sort()
                     return None
                 raise Unmodelled("sort of symbolic values")
@@ -1216,6 +1256,10 @@ class Translator:
             if isinstance(op, ast.NotEq):
                 return not self.compare(ast.Eq(), a, b)
             raise Unmodelled("ordering of booleans")
+        if _pyplain(a) and _pyplain(b) and isinstance(a, (str, tuple, list)) and isinstance(b, (str, tuple, list)) and (isinstance(a, str) == isinstance(b, str)) and (isinstance(a, tuple) == isinstance(b, tuple)):
+            # strings / tuples / lists of strings (incl. checker tokens): Python's own comparison
+            table = {ast.Eq: lambda: a == b, ast.NotEq: lambda: a != b, ast.Lt: lambda: a < b, ast.LtE: lambda: a <= b, ast.Gt: lambda: a > b, ast.GtE: lambda: a >= b}
+            return bool(table[type(op)]())
         if isinstance(a, str) or isinstance(b, str) or a is None or b is None:
             if isinstance(op, ast.Eq):
                 return a == b
@@ -1325,6 +1369,15 @@ def _s(x):
     if isinstance(x, (int, float, complex)):
         return num(x)
     raise Unmodelled("non-numeric value %r in arithmetic" % (x,))
+
+
+def _pyplain(x):
+    """a python-level value whose comparisons are Python's own: strings, ints and (nested) tuples / lists of them"""
+    if isinstance(x, (str, int)) and not isinstance(x, bool):
+        return True
+    if isinstance(x, (tuple, list)):
+        return all(_pyplain(y) for y in x)
+    return False
 
 
 def _pykey(x):
